@@ -152,10 +152,10 @@ M("r4b-comment-no-eof-check", ["C12", "C11"], "break",
 M("r4b-ident-no-unget", ["C12", "C11"], "break",
   [("sgramm.y", "	      while ((c = *curr_ch++) != '\\0' && (isalnum (c) || c == '_'))\n		OS_TOP_ADD_BYTE (stoks, c);\n	      curr_ch--;", "	      while ((c = *curr_ch++) != '\\0' && (isalnum (c) || c == '_'))\n		OS_TOP_ADD_BYTE (stoks, c);")], "yaep_yylex/")
 M("r4b-number-no-unget", ["C12", "C11"], "break",
-  [("sgramm.y", "		yylval.num = yylval.num * 10 + (c - '0');\n	      curr_ch--;", "		yylval.num = yylval.num * 10 + (c - '0');")], "yaep_yylex/")
+  [("sgramm.y", "		  yylval.num = yylval.num * 10 + (c - '0');\n		}\n	      curr_ch--;", "		  yylval.num = yylval.num * 10 + (c - '0');\n		}")], "yaep_yylex/")
 M("r4b-benign-for-loop-form", ["C12"], "benign",
-  [("sgramm.y", "	      while ((c = *curr_ch++) != '\\0' && isdigit (c))\n		yylval.num = yylval.num * 10 + (c - '0');\n	      curr_ch--;",
-    "	      for (;;)\n		{\n		  c = *curr_ch++;\n		  if (c == '\\0' || !isdigit (c))\n		    break;\n		  yylval.num = yylval.num * 10 + (c - '0');\n		}\n	      curr_ch--;")])
+  [("sgramm.y", "	      while ((c = *curr_ch++) != '\\0' && isdigit (c))\n		{\n		  if (yylval.num > (INT_MAX - (c - '0')) / 10)\n		    /* The number does not fit into int.  */\n		    yyerror (\"too big number\");\n		  yylval.num = yylval.num * 10 + (c - '0');\n		}\n	      curr_ch--;",
+    "	      for (;;)\n		{\n		  c = *curr_ch++;\n		  if (c == '\\0' || !isdigit (c))\n		    break;\n		  if (yylval.num > (INT_MAX - (c - '0')) / 10)\n		    yyerror (\"too big number\");\n		  yylval.num = yylval.num * 10 + (c - '0');\n		}\n	      curr_ch--;")])
 M("r4d-revert-F8", ["C12", "C15"], "break",
   [("yaep.c", "      for (i = 0; i < max_code - min_code + 1; i++)\n	symbs_ptr->symb_code_trans_vect[i] = NULL;\n", "")], "symb_code_trans_vect")
 M("r4d-F8-off-by-one", ["C12", "C15"], "break",
@@ -667,12 +667,12 @@ M("r22-nullable-skip-only-at-first-sight", ["C05", "C01"], "break",
   "nullable-skip-class")
 
 M("r4b-local-cursor-commits-behind-nul", ["C11", "C12"], "break",
-  [("sgramm.y", "\t      while ((c = *curr_ch++) != '\\0' && isdigit (c))\n\t\tyylval.num = yylval.num * 10 + (c - '0');\n\t      curr_ch--;",
-    "\t      {\n\t\tconst char *next = curr_ch;\n\n\t\tdo\n\t\t  {\n\t\t    c = *next++;\n\t\t    if (isdigit (c))\n\t\t      yylval.num = yylval.num * 10 + (c - '0');\n\t\t  }\n\t\twhile (isdigit (c));\n\t\tcurr_ch = next;\n\t      }")],
+  [("sgramm.y", "	      while ((c = *curr_ch++) != '\\0' && isdigit (c))\n		{\n		  if (yylval.num > (INT_MAX - (c - '0')) / 10)\n		    /* The number does not fit into int.  */\n		    yyerror (\"too big number\");\n		  yylval.num = yylval.num * 10 + (c - '0');\n		}\n	      curr_ch--;",
+    "\t      {\n\t\tconst char *next = curr_ch;\n\n\t\tdo\n\t\t  {\n\t\t    c = *next++;\n\t\t    if (isdigit (c))\n\t\t      {\n\t\t\tif (yylval.num > (INT_MAX - (c - '0')) / 10)\n\t\t\t  yyerror (\"too big number\");\n\t\t\tyylval.num = yylval.num * 10 + (c - '0');\n\t\t      }\n\t\t  }\n\t\twhile (isdigit (c));\n\t\tcurr_ch = next;\n\t      }")],
   "yaep_yylex/")
 M("r4b-local-cursor-peek-benign", ["C11", "C12"], "benign",
-  [("sgramm.y", "\t      while ((c = *curr_ch++) != '\\0' && isdigit (c))\n\t\tyylval.num = yylval.num * 10 + (c - '0');\n\t      curr_ch--;",
-    "\t      {\n\t\tconst char *next = curr_ch;\n\n\t\twhile (*next != '\\0' && isdigit (*next))\n\t\t  {\n\t\t    c = *next;\n\t\t    next += 1;\n\t\t    yylval.num = 10 * yylval.num + (c - '0');\n\t\t  }\n\t\tcurr_ch = next;\n\t      }")])
+  [("sgramm.y", "	      while ((c = *curr_ch++) != '\\0' && isdigit (c))\n		{\n		  if (yylval.num > (INT_MAX - (c - '0')) / 10)\n		    /* The number does not fit into int.  */\n		    yyerror (\"too big number\");\n		  yylval.num = yylval.num * 10 + (c - '0');\n		}\n	      curr_ch--;",
+    "\t      {\n\t\tconst char *next = curr_ch;\n\n\t\twhile (*next != '\\0' && isdigit (*next))\n\t\t  {\n\t\t    c = *next;\n\t\t    next += 1;\n\t\t    if (yylval.num > (INT_MAX - (c - '0')) / 10)\n\t\t      yyerror (\"too big number\");\n\t\t    yylval.num = 10 * yylval.num + (c - '0');\n\t\t  }\n\t\tcurr_ch = next;\n\t      }")])
 
 # ---- ninth wave rules --------------------------------------------------------------------------------
 M("r21-bounds-of-another-core", ["C12", "C02", "C01"], "break",
@@ -749,12 +749,12 @@ M("c11-revert-F11", ["C11"], "break",
   [("sgramm.y", "  if ((err_code = setjmp (error_longjump_buff)) != 0)", "  if ((code = setjmp (error_longjump_buff)) != 0)")], "implicit-code-counter")
 M("c11-codes-from-255", ["C11"], "break", [("sgramm.y", "  int code = 256;", "  int code = 255;")], "implicit-code-counter")
 M("c11-code-step-2", ["C11"], "break", [("sgramm.y", "	term->code = code++;", "	{ term->code = code; code += 2; }")], "implicit-code-counter")
-M("c11-implicit-for-zero-too", ["C11"], "break", [("sgramm.y", "      if (term->code < 0)\n	term->code = code++;", "      if (term->code <= 0)\n	term->code = code++;")], "implicit-code-condition")
+M("c11-implicit-for-zero-too", ["C11"], "break", [("sgramm.y", "      if (term->code < 0)\n	{\n	  /* Take the next free", "      if (term->code <= 0)\n	{\n	  /* Take the next free")], "implicit-code-condition")
 M("c11-default-cost-zero", ["C11"], "break", [("sgramm.y", "cost :         { anode_cost = 1;}", "cost :         { anode_cost = 0;}")], "yyparse/anode_cost")
-M("c11-char-code-wrong-index", ["C11"], "break", [("sgramm.y", "	  term.code = term.repr [1];", "	  term.code = term.repr [0];")], "char-constant-code")
+M("c11-char-code-wrong-index", ["C11"], "break", [("sgramm.y", "	  term.code = (unsigned char) term.repr [1];", "	  term.code = (unsigned char) term.repr [0];")], "char-constant-code")
 M("c11-replay-swaps-fields", ["C11"], "break", [("sgramm.y", "  *abs_node = rule->anode;", "  *abs_node = rule->lhs;")], "sread_rule/*abs_node")
 M("c11-yyerror-other-code", ["C11"], "break", [("sgramm.y", "  yaep_error (YAEP_DESCRIPTION_SYNTAX_ERROR_CODE,\n	      \"description syntax error on ln %d\", ln);", "  yaep_error (YAEP_NO_RULES,\n	      \"description syntax error on ln %d\", ln);")], "yyerror/code-and-line")
-M("c11-benign-preincrement-form", ["C11"], "benign", [("sgramm.y", "	term->code = code++;", "	{ term->code = code; code = code + 1; }")])
+M("c11-benign-preincrement-form", ["C11"], "benign", [("sgramm.y", "	  term->code = code++;", "	  { term->code = code; code = code + 1; }")])
 
 # ---- R6 (C09, C01) ---------------------------------------------------------------------------------------
 M("r6-side-effect-under-debug", ["C09"], "break",
